@@ -167,6 +167,7 @@ type GenOpts struct {
 	TableIDReuse bool   // several ids, re-announcements, type changes
 	OddNames     bool   // unusual binlog file names
 	CountChange  bool   // C15: a cached table id is re-announced with another column count
+	HeaderFlags  bool   // harmless event-header flag bits on ordinary events
 	LongIdle     int    // C17: one history in LongIdle gets thousands of tiny ignorable events in front (round packet ordinals)
 	PoisonJSON   bool   // C06: a JSON value the decoder must reject (decode failure ends the stream with an error)
 	Rare         bool   // enable the rare-coincidence modes (long histories, exact packet sizes, many rows, extreme timestamps)
@@ -282,6 +283,9 @@ func genTable(s *Stream, idx int, o *GenOpts) *TableDef {
 		t.Cols = append(t.Cols, c)
 	}
 	t.Flags = uint16(s.N(2))
+	if s.Chance(1, 12) {
+		t.Flags = uint16(s.N(1 << 16))
+	}
 	if s.Chance(1, 3) {
 		// 8.0-style optional metadata: TLV fields
 		n := 1 + s.N(3)
@@ -382,6 +386,12 @@ func (b *builder) curFile() *BinFile { return b.h.Files[b.file] }
 
 func (b *builder) add(typ byte, ts uint32, flags uint16, body []byte, desc string) *Event {
 	cfg := &b.h.Cfg
+	if typ != evFormatDesc && typ != evRotate && b.unit >= 0 && b.o.HeaderFlags && b.s.Chance(1, 10) {
+		// header flags that say something about the writer, nothing about how to read
+		// the event: binlog-in-use, thread-specific, suppress-use, relay-log, no-filter,
+		// mts-isolate (the artificial and ignorable bits stay where the server puts them)
+		flags |= []uint16{0x1, 0x4, 0x8, 0x10, 0x40, 0x100, 0x200, 0x4 | 0x8, 0x1 | 0x100 | 0x200}[b.s.N(9)]
+	}
 	withCk := b.curFile().Checksum
 	if typ == evFormatDesc {
 		withCk = true
@@ -803,6 +813,11 @@ func (b *builder) rowsStatement(ts uint32, tables []*TableDef) []ExpEvent {
 			flags := uint16(0)
 			if ti == len(tables)-1 && e == nev-1 {
 				flags = 1 // STMT_END_F
+			}
+			if s.Chance(1, 6) {
+				// NO_FOREIGN_KEY_CHECKS, RELAXED_UNIQUE_CHECKS, COMPLETE_ROWS: session
+				// settings of the writer, logged in the rows flags
+				flags |= uint16(s.N(8)) << 1
 			}
 			body := rowsBodyHeader(cfg.Format, cfg.RowsV2, t.ID, flags, extra, len(t.Cols), bitmaps...)
 			for r := 0; r < nrows; r++ {
